@@ -28,6 +28,7 @@ ASSUMPTIONS = [
     "update() with several items is judged item by item (not as one atomic operation)",
     "== on incompatible units, mixed Array/Vector members or unequal shapes must not be True; raising is accepted",
     "== across different units is generated only where the conversion factor rhs->lhs is an exact integer (rounding is not the subject)",
+    "an object stored under several keys carries the key of its most recent successful insertion (after a copy: any key of the copy)",
 ]
 REAL_STUB = {"real": ["osyris.Datagroup", "osyris.Dataset", "osyris.Array", "osyris.Vector", "units"], "stub": []}
 KEYS = ["a", "b", "c", "d"]
